@@ -237,7 +237,8 @@ def generate(repo=REPO):
 
 
 def main():
-    dst = sys.argv[1] if len(sys.argv) > 1 else "/verif/coq/theories/Gen/Scalars.v"
+    root = os.path.dirname(os.path.dirname(os.path.dirname(os.path.abspath(__file__))))
+    dst = sys.argv[1] if len(sys.argv) > 1 else os.path.join(root, "coq", "theories", "Gen", "Scalars.v")
     txt = generate()
     os.makedirs(os.path.dirname(dst), exist_ok=True)
     old = open(dst).read() if os.path.exists(dst) else None
